@@ -232,6 +232,14 @@ def run_t12(case, ctx, runner=None):
         budget = 80
     if magic:
         ctx.nontrivial()
+    if not case["pokes"] and case["random_image"] is None and \
+            not case["phys_cut"]:
+        # the layout is the one the builder laid out (only the length field
+        # may overshoot): lock and reserved bytes named by its control TLVs
+        # are not part of the data area, the capacity is the layout's
+        area = b.cap
+        data = bytes(mem[a] for a in i["avail"])
+        ctx.label("layout-intact")
     declared_end = (16 + mem[14] * 8) if kind == "t2t" else (mem[10] + 1) * 8
     if len(mem) < declared_end:
         # the tag serves roll-over / filler bytes for addresses it does not
